@@ -439,7 +439,8 @@ val tape_push : nat -> (clause -> keep) -> tape -> tape
 
 val keep_point : 'a1 ops -> 'a1 list -> clause -> keep
 
-val keep_interval : 'a1 ops -> 'a1 list -> 'a1 list -> clause -> keep
+val keep_interval :
+  'a1 ops -> 'a1 list -> 'a1 list -> bool list -> clause -> keep
 
 type byte = n
 
